@@ -13,17 +13,18 @@ import urlgen
 ID = "C03"
 LEAN_MODULE = "UralModel.Props.C03"
 THEOREMS = [
-    "Ural.Props.C03.normalize_factors_of_pathHyp",
-    "Ural.Props.C03.normalize_canonicalize_partial_of_pathHyp",
-    "Ural.Props.C03.normalize_of_canon_eq_partial_of_pathHyp",
+    "Ural.Props.C03.normalize_factors",
+    "Ural.Props.C03.normalize_canonicalize_partial",
+    "Ural.Props.C03.normalize_of_canon_eq_partial",
     "Ural.Props.C03.normalize_port_scheme_blind",
+    "Ural.Props.C03.normalize_path_factors",
     "Ural.Props.C03.normalize_host_factors",
     "Ural.Props.C03.normalize_query_factors",
     "Ural.Props.C03.fingerprint_second_pass",
     "Ural.Props.C03.fingerprint_filter_absorbs",
-    "Ural.Props.C03.fingerprint_inner_call_of_sortHyp",
-    "Ural.Props.C03.fingerprint_of_normalize_eq_partial_of_sortHyp",
-    "Ural.Props.C03.fingerprint_canonicalize_partial_of_hyps",
+    "Ural.Props.C03.fingerprint_inner_call",
+    "Ural.Props.C03.fingerprint_of_normalize_eq_partial",
+    "Ural.Props.C03.fingerprint_canonicalize_partial",
     "Ural.Props.C03.not_fullFingerprintOfNormalizeEq",
 ]
 TABLE_OBLIGATIONS = [
@@ -63,10 +64,10 @@ ASSUMPTIONS = [
 ]
 UNPROVED = (
     "PARTIAL. (a),(c1) are proved on parsed components (normParts of ANY re-parse of canonComps(p) = normParts p, whatever "
-    "default protocol canonicalisation assumed) for quoted=False and paths that are empty or absolute, under PathHyp "
-    "(three normpath facts proved separately in Lemmas/Normpath.lean) and PunyLaws; platform_aware and the redirect "
-    "step act on the string before parsing and are outside the theorems. (b) is proved, under SortHyp (the query sort "
-    "depends only on the multiset of items: C04's permutation lemma), for the class LowerInput (the URL as parsed, and "
+    "default protocol canonicalisation assumed) for quoted=False and paths that are empty or absolute (every URL with an authority), under PunyLaws "
+    "(PathHyp — three normpath facts — is discharged from Lemmas/Normpath.lean); platform_aware and the redirect "
+    "step act on the string before parsing and are outside the theorems. (b) is proved (SortHyp — the query sort "
+    "depends only on the multiset of items — is discharged by C04's sortQsl_eq_of_perm) for the class LowerInput (the URL as parsed, and "
     "what its escapes decode to, are lower-case), where fingerprint_url's inner call is normalize_url's result with the "
     "query passed through the gl/hl filter; the full statement is REFUTED on the model (not_fullFingerprintOfNormalizeEq: "
     "'/Index.html' vs '/Index.html/index.html', replayed on the implementation as KF-C03-3). (c2) = (c1)+(b) under the "
@@ -242,7 +243,7 @@ def cases(rng, tier):
                 yield _mk(parts=p, recipes=[[t]], tseed=k, o=OPTS[0] if k % 3 else OPTS[k % 8])
         else:
             yield _mk(parts=p, recipes=[[c02[k % len(c02)]], [nts[k % len(nts)]]], tseed=k, o=OPTS[0])
-    n = 2600 if tier == "quick" else 40000
+    n = 2000 if tier == "quick" else 40000
     for i in range(n):
         p = nc.random_norm_parts(rng) if i % 3 else urlgen.random_parts(rng)
         recipes = [[rng.choice(TN) for _ in range(rng.randint(1, 3))] for _ in range(rng.randint(1, 3))]
